@@ -248,12 +248,12 @@ package common
 // ---- C08 / C18: the file-name index follows file creation and deletion ----
 // Paths are indexed under their base name (last "/" component) and, when it has a ".", under the stem before the first ".".
 // Every bucket of the two indexes is a real (non-nil) map: buckets are only ever created by InsertOneFile.
+//@ typeinv FileIndexInfo: self.fileNameMap != nil && self.freFileNameMap != nil
 //@ typeinv FileIndexInfo: nonnilvals(self.fileNameMap)
 //@ typeinv FileIndexInfo: nonnilvals(self.freFileNameMap)
 //@ func (*FileIndexInfo).InsertOneFile
 //@   props C08 C18
 //@   sweep C01
-//@   requires f.fileNameMap != nil && f.freFileNameMap != nil
 //@   ensures[inserted-under-base-name] has(f.fileNameMap[splitLast(strFile, "/")], strFile)
 //@   ensures[inserted-under-stem] strIndex(splitLast(strFile, "/"), ".") >= 0 ==>
 //@        has(f.freFileNameMap[splitLast(strFile, "/")[0:strIndex(splitLast(strFile, "/"), ".")]], strFile)
@@ -262,7 +262,6 @@ package common
 //@ func (*FileIndexInfo).RemoveOneFile
 //@   props C08 C18
 //@   sweep C01
-//@   requires f.fileNameMap != nil && f.freFileNameMap != nil
 //@   ensures[removed-from-base-name] !has(f.fileNameMap[splitLast(strFile, "/")], strFile)
 //@   ensures[removed-from-stem] strIndex(splitLast(strFile, "/"), ".") >= 0 ==>
 //@        !has(f.freFileNameMap[splitLast(strFile, "/")[0:strIndex(splitLast(strFile, "/"), ".")]], strFile)
